@@ -246,7 +246,7 @@ theorem sinv_producer (s : State) (cur : Option ThreadId) (h : SInv s cur)
     | false => exact wakeAll_woken_mem _ _ _ (ha i hp h)
     | true => exact wakeAll_woken_mono _ _ _ h
   · constructor <;> simp_all [midPoll]
-  · constructor <;> simp_all [midPoll]
+  · split <;> constructor <;> simp_all [midPoll]
 
 theorem sinv_beginPoll (s : State) (cur : Option ThreadId) (i : Nat) (a : Awaiter)
     (h : SInv s cur) (hc : cur = none ∨ cur = some (i + 1))
@@ -403,7 +403,7 @@ theorem finv_producer (s : State) (h : FInv s) : FInv (stepProducer s) := by
       | false => exact wakeAll_woken_mem _ _ _ (ha i hp h)
       | true => exact wakeAll_woken_mono _ _ _ h
   · constructor <;> simp_all
-  · constructor <;> simp_all
+  · split <;> constructor <;> simp_all
 
 theorem finv_beginPoll (s : State) (i : Nat) (a : Awaiter) (h : FInv s)
     (_hpc : (s.aw i).pc = .start ∨ (s.aw i).pc = .parked) : FInv (beginPoll s i a) := by
@@ -479,6 +479,45 @@ theorem C19_await_no_lost_wake (guardKind : Bool) (polls : Nat) (sched : List Th
     obtain ⟨⟨⟨hp, hw⟩, _⟩, hd⟩ := hl
     have := (h.a i hp hw).2
     simp [hd] at this
+
+theorem finv_initR (g : Bool) (polls reloads : Nat) : FInv (initR g polls reloads) := by
+  constructor <;> simp [initR]
+
+/-- **Every parked awaiter is in the waker list until it is woken — any number of awaiters, any
+number of reloads, every interleaving.**  In every reachable state of the repaired code: an awaiter
+that has returned `Pending` and whose waker has not fired (a) is in `wakers` and (b) a drain of
+`wakers` is still to come in the current load (`notify_subs` has not yet taken the list).  A list
+refilled during a later load therefore never loses an entry of somebody still waiting: an awaiter
+that re-polls late pushes a fresh entry next to the others'. -/
+theorem C19_await_parked_in_wakers (guardKind : Bool) (polls reloads : Nat) (sched : List ThreadId)
+    (i : Nat) :
+    let s := run (initR guardKind polls reloads) sched
+    (s.aw i).pc = .parked → (s.aw i).woken = false →
+      i ∈ s.wakers ∧ (s.ppc = .start ∨ s.ppc = .entered ∨ s.ppc = .stored) := by
+  intro s hp hw
+  exact (finv_run sched _ (finv_initR guardKind polls reloads)).a i hp hw
+
+/-- no lost wake-up across reloads: whenever a load is complete (`loading = false`, `notify_subs`
+through), no awaiter is parked without its waker having fired -/
+theorem C19_await_no_lost_wake_reloads (guardKind : Bool) (polls reloads : Nat)
+    (sched : List ThreadId) (i : Nat) :
+    lost (run (initR guardKind polls reloads) sched) i = false := by
+  have h := finv_run sched _ (finv_initR guardKind polls reloads)
+  cases hl : lost (run (initR guardKind polls reloads) sched) i with
+  | false => rfl
+  | true =>
+    simp only [lost, Bool.and_eq_true, beq_iff_eq, Bool.not_eq_true'] at hl
+    obtain ⟨⟨⟨hp, hw⟩, _⟩, hd⟩ := hl
+    have := (h.a i hp hw).2
+    simp [hd] at this
+
+/-- seed r3-2's schedule (two awaiters X = 0, Y = 1, one reload): X parks in load 1 and is woken
+by its drain; load 2 starts; Y parks (first entry of the refilled list); X re-polls late and pushes
+NEXT to Y's entry; load 2's drain wakes both, both read the second value -/
+example :
+    let s := run (initR true 3 1) [1, 1, 1, 0, 0, 0, 0, 0, 2, 2, 2, 1, 1, 1, 0, 0, 0, 0, 1, 2]
+    (s.aw 0).pc = .ready ∧ (s.aw 0).got = 8 ∧ (s.aw 1).pc = .ready ∧ (s.aw 1).got = 8 ∧
+    (s.aw 0).pendings = 2 ∧ (s.aw 1).pendings = 1 := by decide
 
 /-- and a parked awaiter that has been woken re-polls and reads Ready (progress, not only safety):
 once `loading = false`, a poll returns Ready -/
@@ -981,6 +1020,30 @@ example :
     let s := run (initClean coarse true false [[.set 2, .get 2]]) (tail 1)
     (s.ts 0).results = [.unit, .val 2] := by decide
 
+/-! ### the async derived's own update loop under cross-thread marks -/
+
+/-- `needs_rerun` tests and clears `Dirty` in ONE micro-step (under the derived's write lock), before
+the source check starts: a `mark_dirty` that arrives while the task is inside the source check
+finds the flag already consumed and sets it again, for the next iteration of the loop. -/
+theorem C19_derived_needs_rerun_atomic (s : State) (t : Nat) (rest : List Frame)
+    (hf : (s.ts t).frames = .dNeeds :: rest) (hd : s.der.dirty = true) :
+    exec s t = some (setT { s with der := { s.der with dirty := false } } t
+      { s.ts t with obs := s.defs.length :: (s.ts t).obs, ret := true, frames := .dAfter :: rest }) := by
+  unfold exec
+  simp [hf, hd]
+
+set_option maxRecDepth 100000 in
+/-- **seed r3-1's schedule**: derived = (a / 100) * 1000 + b with a = 1, b = 10.  Thread 0 writes
+a = 2 and polls the derived's task, which is only asked to *check* and is inside the memo's
+recomputation (unchanged: 0) when thread 1 writes b = 20 (the derived is marked dirty, its channel
+notified).  The check answers "unchanged", the loop's next `rx.next()` finds the flag set,
+`needs_rerun` finds `Dirty`: the derived runs again and ends on 20. -/
+theorem C19_derived_dirty_during_check :
+    let defs : List Def := [{ f := .div 100, reads := [.sig] }]
+    let s := run (initDerived defs [[.set 2, .poll], [.setB 20]]) ([0, 0, 0, 1] ++ tail 2)
+    allFinished s 2 = true ∧ (finalPoll s).der.value = some 20 ∧ (initDerived defs []).der.value = some 10 := by
+  decide
+
 /-! ### the lock discipline of the repaired machine, for all interleavings -/
 
 /-- thread frames say: "the next thing I do with memo `m`'s lock is the store + unlock" -/
@@ -1052,7 +1115,66 @@ theorem setM_r (s : State) (m m' : Nat) (x : MemoSt) :
     ((setM s m x).ms m').r = if m' = m then x.r else (s.ms m').r := by
   simp only [setM, upd]; split <;> rfl
 
-set_option maxHeartbeats 2000000 in
+theorem sameLocks_setM_of (S s : State) (m : Nat) (x : MemoSt) (hS : SameLocks S s)
+    (hw : x.w = (S.ms m).w) (hr : x.r = (S.ms m).r) : SameLocks (setM S m x) s := by
+  obtain ⟨h1, h2, h3, h4⟩ := hS
+  refine ⟨h1, h2, h3, fun m' => ?_⟩
+  simp only [setM, upd]
+  split
+  · subst_vars; rw [hw, hr]; exact h4 _
+  · exact h4 m'
+
+theorem holdsOk_yld (s : State) (t : Nat) (y : YName) (rest : List Frame) (h : HoldsOk s)
+    (hfr : (s.ts t).frames = .yld y :: rest) (th' : Thread) (hf : th'.frames = rest) :
+    HoldsOk (setT s t th') := by
+  refine holdsOk_general s s t _ h rfl h.fc h.fm h.r ?_
+  intro m u hu
+  refine ⟨fun _ => hu, fun hut => ?_⟩
+  subst hut
+  have := h.w m u hu
+  rw [hfr] at this
+  rw [hf]
+  simp only [holderReady] at this ⊢
+  split at this <;> simp_all
+
+theorem holdsOk_ulock (s : State) (t m new : Nat) (ch : Bool) (rest : List Frame) (h : HoldsOk s)
+    (hfr : (s.ts t).frames = .ulock m new ch :: rest) (x : MemoSt) (hxw : x.w = some t) (hxr : x.r = (s.ms m).r)
+    (th' : Thread) (hf : th'.frames = .yld .reactivityHeld :: .ustore m new ch :: rest) :
+    HoldsOk (setT (setM s m x) t th') := by
+  have hnot : ∀ m, holderReady (s.ts t).frames m = false := by intro m; simp [hfr, holderReady]
+  refine holdsOk_general s _ t _ h rfl (by simp [setM, h.fc]) (by simp [setM, h.fm]) ?_ ?_
+  · intro m'; rw [setM_r]; split <;> simp [h.r, hxr]
+  · intro m' u hu
+    rw [setM_w] at hu
+    split at hu
+    · subst_vars
+      rw [hxw] at hu
+      simp only [Option.some.injEq] at hu
+      subst hu
+      exact ⟨fun hne => absurd rfl hne, fun _ => by simp [hf, holderReady]⟩
+    · refine ⟨fun _ => hu, fun hut => ?_⟩
+      subst hut
+      have := h.w m' u hu
+      rw [hnot m'] at this; cases this
+
+theorem holdsOk_ustore (s : State) (t m new : Nat) (ch : Bool) (rest : List Frame) (h : HoldsOk s)
+    (hfr : (s.ts t).frames = .ustore m new ch :: rest) (x : MemoSt) (hxw : x.w = none) (hxr : x.r = (s.ms m).r)
+    (th' : Thread) : HoldsOk (setT (setM s m x) t th') := by
+  refine holdsOk_general s _ t _ h rfl (by simp [setM, h.fc]) (by simp [setM, h.fm]) ?_ ?_
+  · intro m'; rw [setM_r]; split <;> simp [h.r, hxr]
+  · intro m' u hu
+    rw [setM_w] at hu
+    split at hu
+    · rw [hxw] at hu; cases hu
+    · refine ⟨fun _ => hu, fun hut => ?_⟩
+      subst hut
+      have := h.w m' u hu
+      rw [hfr] at this
+      simp only [holderReady, beq_iff_eq] at this
+      rename_i hne
+      exact absurd this.symm hne
+
+set_option maxHeartbeats 4000000 in
 theorem holdsOk_exec (s s' : State) (t : Nat) (h : HoldsOk s) (he : exec s t = some s') : HoldsOk s' := by
   have hfc := h.fc
   have hfm := h.fm
@@ -1065,91 +1187,22 @@ theorem holdsOk_exec (s s' : State) (t : Nat) (h : HoldsOk s) (he : exec s t = s
     all_goals (try simp only [hfc, hfm, Bool.false_eq_true, ↓reduceIte] at he)
     all_goals (repeat' (split at he))
     all_goals (try (cases he; done))
-    all_goals (try (
-      have hnot : ∀ m, holderReady (s.ts t).frames m = false := by intro m; simp [hfr, holderReady]
+    all_goals (
       cases he
-      refine holdsOk_normal _ _ _ _ h ?_ hnot
       first
-      | exact sameLocks_refl _
-      | exact sameLocks_sig _ _
-      | exact sameLocks_sigSubs _ _
-      | (apply sameLocks_setM <;> rfl)))
-    · -- yld: leave the yield point
-      cases he
-      refine holdsOk_general s s t _ h rfl hfc hfm h.r ?_
-      intro m u hu
-      refine ⟨fun _ => hu, fun hut => ?_⟩
-      subst hut
-      have := h.w m u hu
-      rw [hfr] at this
-      simp only [holderReady] at this ⊢
-      split at this <;> simp_all
-    · -- uclearLock (repaired): sources taken, own lock not kept
-      rename_i hcan
-      have hnot : ∀ m, holderReady (s.ts t).frames m = false := by intro m; simp [hfr, holderReady]
-      cases he
-      refine holdsOk_normal _ _ _ _ h ?_ hnot
-      apply sameLocks_setM
-      · simp [canW] at hcan; simp [hcan.1]
-      · rfl
-    · -- uclearRm sig
-      have hnot : ∀ m, holderReady (s.ts t).frames m = false := by intro m; simp [hfr, holderReady]
-      cases he
-      exact holdsOk_normal _ _ _ _ h ⟨rfl, by simp [hfc], by simp [hfm], fun _ => ⟨rfl, rfl⟩⟩ hnot
-    · -- utrack2 sig
-      have hnot : ∀ m, holderReady (s.ts t).frames m = false := by intro m; simp [hfr, holderReady]
-      cases he
-      exact holdsOk_normal _ _ _ _ h ⟨rfl, by simp [hfc], by simp [hfm], fun _ => ⟨rfl, rfl⟩⟩ hnot
-    · -- ulock: take the write lock, next comes the store
-      have hnot : ∀ m, holderReady (s.ts t).frames m = false := by intro m; simp [hfr, holderReady]
-      cases he
-      refine holdsOk_general s _ t _ h rfl (by simp [setM, hfc]) (by simp [setM, hfm]) ?_ ?_
-      · intro m; rw [setM_r]; split <;> simp [h.r]
-      · intro m u hu
-        rw [setM_w] at hu
-        split at hu
-        · subst_vars
-          simp only [Option.some.injEq] at hu
-          subst hu
-          exact ⟨fun hne => absurd rfl hne, fun _ => by simp [holderReady]⟩
-        · refine ⟨fun _ => hu, fun hut => ?_⟩
-          subst hut
-          have := h.w m u hu
-          rw [hnot m] at this; cases this
-    · -- ustore (changed)
-      cases he
-      refine holdsOk_general s _ t _ h rfl (by simp [setM, hfc]) (by simp [setM, hfm]) ?_ ?_
-      · intro m; rw [setM_r]; split <;> simp [h.r]
-      · intro m u hu
-        rw [setM_w] at hu
-        split at hu
-        · cases hu
-        · refine ⟨fun _ => hu, fun hut => ?_⟩
-          subst hut
-          have := h.w m u hu
-          rw [hfr] at this
-          simp only [holderReady, beq_iff_eq] at this
-          rename_i hne
-          exact absurd this.symm hne
-    · -- ustore (unchanged)
-      cases he
-      refine holdsOk_general s _ t _ h rfl (by simp [setM, hfc]) (by simp [setM, hfm]) ?_ ?_
-      · intro m; rw [setM_r]; split <;> simp [h.r]
-      · intro m u hu
-        rw [setM_w] at hu
-        split at hu
-        · cases hu
-        · refine ⟨fun _ => hu, fun hut => ?_⟩
-          subst hut
-          have := h.w m u hu
-          rw [hfr] at this
-          simp only [holderReady, beq_iff_eq] at this
-          rename_i hne
-          exact absurd this.symm hne
-    · -- setSig
-      have hnot : ∀ m, holderReady (s.ts t).frames m = false := by intro m; simp [hfr, holderReady]
-      cases he
-      exact holdsOk_normal _ _ _ _ h ⟨rfl, by simp [hfc], by simp [hfm], fun _ => ⟨rfl, rfl⟩⟩ hnot
+      | (apply holdsOk_yld s t _ _ h hfr <;> rfl)
+      | (apply holdsOk_ulock s t _ _ _ _ h hfr <;> rfl)
+      | (apply holdsOk_ustore s t _ _ _ _ h hfr <;> rfl)
+      | (have hnot : ∀ m, holderReady (s.ts t).frames m = false := by intro m; simp [hfr, holderReady]
+         refine holdsOk_normal _ _ _ _ h ?_ hnot
+         first
+         | exact sameLocks_refl _
+         | exact ⟨rfl, by simp [hfc], by simp [hfm], fun _ => ⟨rfl, rfl⟩⟩
+         | (apply sameLocks_setM <;> rfl)
+         | (refine sameLocks_setM_of _ s _ _ ⟨rfl, by simp [hfc], by simp [hfm], fun _ => ⟨rfl, rfl⟩⟩ rfl rfl)
+         | (apply sameLocks_setM
+            · rename_i hcan; simp [canW] at hcan; simp [hcan.1]
+            · rfl)))
 
 theorem holdsOk_setT_frames (s : State) (t : Nat) (th' : Thread) (h : HoldsOk s)
     (hf : th'.frames = (s.ts t).frames) : HoldsOk (setT s t th') := by
